@@ -154,7 +154,7 @@ fn reference(svc: &Sx, total: &[u8]) -> Sx {
         Ok((t, Some(iface))) => {
             let mut v = t.clone();
             v.extend_from_slice(rd);
-            if iface == wire::LINE_WISE_IFACE {
+            if iface == wire::LINE_WISE_IFACE || iface == wire::SEG_LINE_IFACE {
                 // that fixture echoes the complete lines only
                 let cut = v.iter().rposition(|b| *b == b'\n').map(|i| i + 1).unwrap_or(0);
                 v.truncate(cut);
@@ -717,6 +717,25 @@ impl Suite for ListenSuite {
             cases.push(Case {
                 input: sx::tagged("listen-conc", vec![sx::atom(t), sx::nat(1), cfg.sx.clone(), sx::list(cl), sx::tagged("max", vec![sx::nat(1)])]),
                 tags: vec!["sequential-on-one-worker".into(), "upgrade-returns-unfinished-line".into()],
+            });
+        }
+        // (a2) an upgraded connection whose handler returns after every segment and hands back the
+        //      unfinished record each time: the pieces must be put together again across segments
+        for t in ["unix", "tcp"] {
+            let cfg = cfgs.iter().find(|c| c.scripts.iter().any(|n| n == wire::SEG_LINE_IFACE)).unwrap();
+            tok += 1;
+            let v = serde_json::json!({"method": format!("{}.Run", wire::SEG_LINE_IFACE), "upgrade": true,
+                "parameters": {"token": format!("t{}z", tok), "script": [{"op":"upgrade"},{"op":"reply","p":{"token": format!("t{}z", tok)}}]}});
+            let mut first = serde_json::to_vec(&v).unwrap();
+            first.push(0);
+            first.extend_from_slice(b"bra");
+            let chunks: Vec<Vec<u8>> = vec![first, b"vo\nsecond li".to_vec(), b"ne\nthi".to_vec(), b"rd\nunfinished".to_vec()];
+            let total: Vec<u8> = chunks.concat();
+            let mut cl = vec![sx::atom("clients")];
+            cl.push(client_sx("slow", 0, &chunks, &total));
+            cases.push(Case {
+                input: sx::tagged("listen-conc", vec![sx::atom(t), sx::nat(1), cfg.sx.clone(), sx::list(cl)]),
+                tags: vec!["upgrade-records-split-across-segments".into()],
             });
         }
         // (b) a peer stalled in the middle of a message beside prompt peers
